@@ -391,6 +391,17 @@ def case_compound(case, col=None):
         return
     check_convert(ureg, ua, ub, same, tag="convert_compound")
     check_all_points(ureg, ua, ub, same)
+    # neighbours: right after a conversion has succeeded, the same request with one exponent moved (-1 -> -2, 1 -> 2, e -> 2e) is a
+    # different dimension and must be refused (the first answer must not be served again from a cache slot shared by accident)
+    if same:
+        for i, (n, e) in enumerate(fa[:3]):
+            for e2 in {e + (1 if e > 0 else -1), 2 * e}:
+                fa2 = [(m, (e2 if j == i else x)) for j, (m, x) in enumerate(fa)]
+                if _dim_of(R, fa2) == _dim_of(R, fb):
+                    continue
+                if col is not None:
+                    col.count("neighbour_after_success")
+                check_convert(ureg, ureg.UnitsContainer({m: x for m, x in fa2}), ub, False, tag="convert_compound_neighbour")
     # equivalence + closure laws through Unit objects
     U = ureg.Unit
     A, B, C = U(ua), U(ub), U(ureg.UnitsContainer({n: e for n, e in fc}))
